@@ -532,8 +532,13 @@ def analyze_module(design, modname):
       probs.append("module %s: input port %r is driven inside the module by %s"
                    % (modname, name, "; ".join(d for d, _, _ in dl)))
     if "comb" in kinds and "ff" in kinds:
-      probs.append("module %s: variable %r is driven from both always_comb and always_ff (%s)"
-                   % (modname, name, "; ".join(d for d, k, _ in dl if k in ("comb", "ff"))))
+      # IEEE 1800-2017 9.2.2.2.1 / 11.5.3: the restriction applies to the longest static prefix, so different
+      # elements of an unpacked array may be written by different kinds of process; one element may not
+      mixed = [k for k in range(sym.nelem)
+               if any(kd == "comb" and bm.get(k, 0) for _, kd, bm in dl) and any(kd == "ff" and bm.get(k, 0) for _, kd, bm in dl)]
+      if mixed:
+        probs.append("module %s: variable %r is driven from both always_comb and always_ff (%s)"
+                     % (modname, name, "; ".join(d for d, k, _ in dl if k in ("comb", "ff"))))
     und = None
     for k in range(sym.nelem):
       once = 0
